@@ -419,7 +419,7 @@ class MeasuredValue(ExperimentalValue):
                 "Cannot assign a {} to the error!".format(type(relative_error).__name__))
         if relative_error < 0:
             raise ValueError("The error must be a positive real number!")
-        new_error = self.value * float(relative_error)
+        new_error = abs(self.value) * float(relative_error)
         self._error = new_error
 
     def derivative(self, other: "ExperimentalValue") -> float:
